@@ -39,10 +39,16 @@ def conv(v):
 
 
 def special(v, code):
-    """float clock only: code 1 -> nan, 2 -> +inf (requests with such times)."""
+    """code 1 -> nan, 2 -> +inf request times/delays (float and Duration clocks)."""
     if code == 1:
+        if CLOCK == "duration":
+            from pydsol.core.units import Duration
+            return Duration(NAN)
         return NAN
     if code == 2:
+        if CLOCK == "duration":
+            from pydsol.core.units import Duration
+            return Duration(float("inf"))
         return float("inf")
     return conv(v)
 
